@@ -392,6 +392,37 @@ def run_axioms(gname, tier="quick", seed=0):
             e.update(G.sample_group(rn, "n"))
             e.update(G.sample_tangent(rn, "a", rotnorm=rn.uniform(0.1, 2.5)))
             return e
+        # the Manifold interface of the group (free functions smooth::rplus / smooth::rminus, traits::man<G>) is the group's own
+        # operator+ / operator- (i.e. m * exp(a) and log(m2^-1 * m1)), on every path pair reached by samples
+        fmp = Fn(G, s, "man_rplus", [("m", R), ("a", N), ("o", R)])
+        fmm = Fn(G, s, "man_rminus", [("x", R), ("y", R), ("t", N)])
+
+        def hyp_xy(ctx):
+            G_.unit_hyp(ctx, G, "x")
+            G_.unit_hyp(ctx, G, "y")
+
+        def samp_xy(rn):
+            e = G.sample_group(rn, "x")
+            e.update(G.sample_group(rn, "y"))
+            return e
+        for (fa, fb, nm, outn, hy, sm) in ((fmp, fp, "rplus", "o", hyp, samp), (fmm, fm, "rminus", "t", hyp_xy, samp_xy)):
+            seen = set()
+            for _ in range(40):
+                e = sm(rng)
+                pa = [q for q in fa.paths() if engine.path_holds(q, e)]
+                pb = [q for q in fb.paths() if engine.path_holds(q, e)]
+                if len(pa) != 1 or len(pb) != 1 or (id(pa[0]), id(pb[0])) in seen:
+                    continue
+                seen.add((id(pa[0]), id(pb[0])))
+                prs = [("[%d]" % i, x_, y_) for i, (x_, y_) in enumerate(zip(pa[0].out(outn), pb[0].out(outn)))]
+                same = all(x_ is y_ for _, x_, y_ in prs)
+                oid_ = "%s::man::%s==operator/p%d" % (tag, nm, len(seen))
+                if same:
+                    res.add(oid_, "proved", "struct", 0.0, "identical operation DAG")
+                else:
+                    prove_pairs(res, oid_, prs, hy, sm, pa[0], fa.call(), seed=seed, budget=60)
+            if not seen:
+                res.add("%s::man::%s==operator" % (tag, nm), "error", "infra", 0.0, "no path pair found")
         # rminus(rplus(m, a), m) == a
         done = 0
         for k, pp in enumerate(fp.paths(("closed", "plain"))):
